@@ -270,6 +270,9 @@ fn alphabet() -> Vec<Line> {
         Line::new(&["als ja { stel tak = 2; { onbekend } }"]),
         Line::new(&["stel z = onbekend"]),
         Line::new(&["stel z = 4", "z + a"]),
+        Line::new(&["functie lees(n) { n + a }", "lees(1)"]),
+        Line::new(&["stel a = 50", "a"]),
+        Line::new(&["lees(2) + a"]),
     ]
 }
 
@@ -395,6 +398,30 @@ fn gen_line(t: &mut Tape, declared: &mut Vec<String>, heap_vars: &mut Vec<String
             ];
             Line { stmts, cut: Some(1 + t.below(30) as u64) }
         }
+        20 => {
+            // a function that reads (and one that writes) a global of an earlier line: it keeps referring to THAT variable,
+            // also when a later line declares the name again
+            let name = format!("lees{k}");
+            funcs.push(name.clone());
+            let v = pick_var(t, declared);
+            if t.maybe(128) {
+                Line::new(&[&format!("functie {name}(n) {{ n + {v} }}"), &format!("{name}(1) + {v}")])
+            } else {
+                Line::new(&[&format!("functie {name}(n) {{ {v} = {v} + n; {v} }}"), &format!("[{name}(1), {v}]")])
+            }
+        }
+        21 => {
+            // declare a name again (a new variable; functions of earlier lines keep the old one), then use both
+            let v = pick_var(t, declared);
+            let val = t.range(200, 300);
+            match funcs.is_empty() {
+                true => Line::new(&[&format!("stel {v} = {val}"), &format!("{v} + 1")]),
+                false => {
+                    let f = t.pick(funcs).clone();
+                    Line::new(&[&format!("stel {v} = {val}"), &format!("[{f}(2), {v}]")])
+                }
+            }
+        }
         22 | 23 if !ghosts.is_empty() => {
             // a name that only a failed line tried to declare: it does not exist
             let g = t.pick(ghosts).clone();
@@ -434,7 +461,139 @@ pub fn gen_session(tape: &[u8]) -> Vec<Line> {
     lines
 }
 
+// ---------------------------------------------------------------------------------------
+// "A line that fails has no influence on the meaning of later lines beyond the assignments it completed before failing":
+// the session with the failing line, the session with only what that line completed (a successful line), and - when it
+// completed nothing - the session without the line must show the same for EVERY later line, including lines whose value
+// the language leaves open (U1: a line that ends in a declaration). Implementation against itself.
+
+const RELATION_PREFIX: [&str; 4] = ["stel a = 10", "stel i = 0; stel rij = [1, 2]", "functie f(x) { x + a }", "stel t = \"tekst\""];
+
+/// (failing line, the successful line that makes the same completed assignments; None = it completed nothing)
+const FAILING_LINES: [(&str, Option<&str>); 22] = [
+    ("a + 1; a / 0", Some("a + 1")),
+    ("a + 1; a / 0", None),
+    ("stel q = (", None),
+    ("a + 1; onbekend", None),
+    ("[1.5, \"x\", 1 / 0]", None),
+    ("f(1 / 0)", None),
+    ("f(a) + f(1) / 0", None),
+    ("a = a + 1; 1 / 0", Some("a = a + 1")),
+    ("stel z = 5; z / 0", Some("stel z = 5")),
+    ("rij[0] = 9; rij[5]", Some("rij[0] = 9")),
+    ("functie g() { a / 0 }; g()", Some("functie g() { a / 0 }")),
+    ("zolang i < 5 { i = i + 1; als i == 3 { a / 0 } }", Some("i = 3")),
+    ("print(\"x\"); [a, a / 0]", Some("print(\"x\")")),
+    ("\"abc\" + 1", None),
+    ("t[0] = \"X\"; t[99]", Some("t[0] = \"X\"")),
+    ("a; stop", None),
+    ("a; antwoord 1", None),
+    ("[a, t, 2.5]; lengte(5)", None),
+    ("f(1); f(2); f()", None),
+    ("als ja { a * 3 }; zolang ja { [][0] }", None),
+    ("{ a + 7 }; 1 % 0", None),
+    ("-a; !a", None),
+];
+
+const LATER_LINES: [&str; 16] = [
+    "stel b = 2",
+    "b",
+    "a",
+    "[i, rij, t]",
+    "f(1)",
+    "stel c = [a, 2.5]",
+    "zolang i < 7 { i = i + 1 }",
+    "als nee { 1 }",
+    "functie h() { 3 }",
+    "h()",
+    "{ }",
+    "a = a + 1",
+    "stel d = f(2); stel e = d",
+    "print(\"{}\", a)",
+    "rij[1] = t",
+    "stel g = 1",
+];
+
+fn run_lines(lines: &[String]) -> Result<Vec<Obs>, Obs> {
+    let mut s = session_begin();
+    let mut got = Vec::new();
+    let mut bad = None;
+    for l in lines {
+        let o = s.line(l, BUDGET);
+        if o.outcome.is_crash() || !o.events.is_empty() {
+            bad = Some(o);
+            break;
+        }
+        got.push(o);
+    }
+    s.end();
+    crate::engine::install_gc_observer();
+    match bad {
+        Some(o) => Err(o),
+        None => Ok(got),
+    }
+}
+
+fn relation_case(failing: &str, same_as: Option<&str>, later: &[&str]) -> Result<(), Fail> {
+    let prefix: Vec<String> = RELATION_PREFIX.iter().map(|s| s.to_string()).collect();
+    let tail: Vec<String> = later.iter().map(|s| s.to_string()).collect();
+    let with_failure: Vec<String> = prefix.iter().cloned().chain([failing.to_string()]).chain(tail.iter().cloned()).collect();
+    let without: Vec<String> = match same_as {
+        Some(l) => prefix.iter().cloned().chain([l.to_string()]).chain(tail.iter().cloned()).collect(),
+        None => prefix.iter().cloned().chain(tail.iter().cloned()).collect(),
+    };
+    let case = json!({"kind": "failed-line-relation", "failing": failing, "same_as": same_as, "later": later});
+    let a = run_lines(&with_failure).map_err(|o| ("crash-in-session".to_string(), case.clone(), "no crash".to_string(), o.render()))?;
+    let b = run_lines(&without).map_err(|o| ("crash-in-session".to_string(), case.clone(), "no crash".to_string(), o.render()))?;
+    // the failing line must fail, and its stand-in must not
+    if !matches!(a[prefix.len()].outcome, Outcome::Error(_)) || (same_as.is_some() && !matches!(b[prefix.len()].outcome, Outcome::Value(_))) {
+        return Ok(());
+    }
+    let (ta, tb) = (&a[prefix.len() + 1..], &b[b.len() - tail.len()..]);
+    for (k, (x, y)) in ta.iter().zip(tb.iter()).enumerate() {
+        if !x.same_as(y) {
+            return Err((
+                "failed-line-influences-later-line".into(),
+                case,
+                format!("line `{}` as after `{}`: {}", later[k], same_as.unwrap_or("(no line at all)"), y.render()),
+                format!("after the failing line `{failing}`: {}", x.render()),
+            ));
+        }
+    }
+    Ok(())
+}
+
+fn failed_line_relation(rep: &mut Report, seed: u64) {
+    use proptest::prelude::RngCore;
+    let mut runner = crate::tape::runner(seed.wrapping_mul(15_485_863), 1);
+    for (failing, same_as) in FAILING_LINES {
+        // every later line directly after the failing one, and generated sequences of 2-5 later lines
+        let mut tails: Vec<Vec<&str>> = LATER_LINES.iter().map(|l| vec![*l]).collect();
+        for _ in 0..24 {
+            let mut bytes = [0u8; 8];
+            runner.rng().fill_bytes(&mut bytes);
+            let n = 2 + (bytes[0] as usize) % 4;
+            tails.push((0..n).map(|j| LATER_LINES[(bytes[1 + j] as usize * LATER_LINES.len()) >> 8]).collect());
+        }
+        for tail in tails {
+            rep.eval();
+            rep.count("failed-line-relation");
+            rep.nontrivial(&format!("{failing} | {tail:?}"));
+            if let Err(f) = relation_case(failing, same_as, &tail) {
+                rep.violation(Violation { property: "C17".into(), driver: "failed-line-relation".into(), class: f.0, case: f.1, expected: f.2, observed: f.3 });
+            }
+        }
+    }
+    rep.sample(json!({"failed-line-relation": ["stel a = 10", "a + 1; a / 0   // fails after a value was computed", "stel b = 2   // must show what it shows after `a + 1` alone, or after nothing"]}));
+}
+
 pub fn replay(case: &Value) -> Option<Violation> {
+    if case.get("kind").and_then(|k| k.as_str()) == Some("failed-line-relation") {
+        let failing = case.get("failing")?.as_str()?;
+        let same_as = case.get("same_as").and_then(|s| s.as_str());
+        let later: Vec<&str> = case.get("later")?.as_array()?.iter().filter_map(|x| x.as_str()).collect();
+        return relation_case(failing, same_as, &later).err().map(|f| Violation { property: "C17".into(), driver: "replay".into(), class: f.0, case: case.clone(), expected: f.2, observed: f.3 });
+    }
     let lines = lines_from_json(case)?;
     check_session(&lines).err().map(|f| Violation { property: "C17".into(), driver: "replay".into(), class: f.0, case: case.clone(), expected: f.2, observed: f.3 })
 }
@@ -462,10 +621,11 @@ pub fn run_check(ctx: &Ctx) -> Report {
     let mut rep = Report::new(
         "C17",
         "fault_enumeration",
-        "sessions on one retained (Compiler, VM) pair: ALL sessions of <=3 lines over a 19-line alphabet (declarations, assignments, expressions over earlier globals, heap values, a function definition with calls, a call of a function of an earlier line, a loop, \
+        "sessions on one retained (Compiler, VM) pair: ALL sessions of <=3 lines over a 22-line alphabet (declarations, assignments, expressions over earlier globals, heap values, a function definition with calls, a call of a function of an earlier line, a function that reads a global that a later line declares again, a loop, \
          and failing lines: parse error, compile errors after a declaration and inside a loop with a pending stop, run-time errors after assignments), plus generated sessions of up to 13 lines (lines of the same kinds, compile errors at every statement position, \
          run-time errors inside functions and loops, and lines cut short by the instruction budget after k instructions). Oracle: every line must produce what the same line produces as the last line of ONE program made of the effective earlier lines (nederlang::eval of the concatenation); \
-         a line that fails statically contributes nothing, a line that fails at run time contributes the statements it completed. non-trivial = a failing line is followed by another line, or a line reads state written two or more lines earlier; distinct by session text",
+         a line that fails statically contributes nothing, a line that fails at run time contributes the statements it completed. \
+         Relation (implementation against itself): after a failing line, every later line - also one whose value is left open (U1) - shows what it shows after a successful line that makes the same completed assignments, or after no line at all (22 failing lines x 16 later lines + generated sequences). non-trivial = a failing line is followed by another line, or a line reads state written two or more lines earlier; distinct by session text",
     );
     rep.assumptions.push("U1: the value of a line that ends with a declaration is not compared".into());
     rep.assumptions.push("results of session lines are not released by the harness (the prompt only prints them)".into());
@@ -542,7 +702,8 @@ pub fn run_check(ctx: &Ctx) -> Report {
             }
         }
     }
-    rep.extra.insert("exhaustive_parts".into(), json!(["all sessions of <=3 lines over the 19-line alphabet (7239 sessions)", "every cut point k of three multi-statement lines"]));
+    failed_line_relation(&mut rep, seed);
+    rep.extra.insert("exhaustive_parts".into(), json!(["all sessions of <=3 lines over the 22-line alphabet (11 154 sessions)", "every cut point k of three multi-statement lines"]));
     par_shards(ctx.shards, rep, move |shard, r| {
         let alpha = alphabet();
         let n = alpha.len();
